@@ -880,3 +880,166 @@ mod test {
         low_limit.validate_resumption_from(&high_limit).unwrap_err();
     }
 }
+
+/// Verification hooks: plain-data mirror of [`TransportParameters`] (whose fields are
+/// crate-private) and access to the private `PreferredAddress` codec. Add-only.
+#[cfg(feature = "verif-hooks")]
+#[allow(missing_docs, unreachable_pub)]
+pub mod verif_tp {
+    use super::*;
+
+    #[derive(Debug, Clone, PartialEq, Eq)]
+    pub struct VPreferredAddress {
+        pub address_v4: Option<SocketAddrV4>,
+        pub address_v6: Option<SocketAddrV6>,
+        pub connection_id: Vec<u8>,
+        pub stateless_reset_token: [u8; 16],
+    }
+
+    #[derive(Debug, Clone, PartialEq, Eq)]
+    pub struct VTransportParams {
+        pub max_idle_timeout: u64,
+        pub max_udp_payload_size: u64,
+        pub initial_max_data: u64,
+        pub initial_max_stream_data_bidi_local: u64,
+        pub initial_max_stream_data_bidi_remote: u64,
+        pub initial_max_stream_data_uni: u64,
+        pub initial_max_streams_bidi: u64,
+        pub initial_max_streams_uni: u64,
+        pub ack_delay_exponent: u64,
+        pub max_ack_delay: u64,
+        pub active_connection_id_limit: u64,
+        pub disable_active_migration: bool,
+        pub max_datagram_frame_size: Option<u64>,
+        pub initial_src_cid: Option<Vec<u8>>,
+        pub grease_quic_bit: bool,
+        pub min_ack_delay: Option<u64>,
+        pub original_dst_cid: Option<Vec<u8>>,
+        pub retry_src_cid: Option<Vec<u8>>,
+        pub stateless_reset_token: Option<[u8; 16]>,
+        pub preferred_address: Option<VPreferredAddress>,
+        /// (id, payload) of the reserved ("grease") parameter; written, never read back
+        pub grease: Option<(u64, Vec<u8>)>,
+        /// Indices into the library's table of supported parameters
+        pub write_order: Option<Vec<u8>>,
+    }
+
+    /// Number of entries a `write_order` must have
+    pub const TP_ORDER_LEN: usize = TransportParameterId::SUPPORTED.len();
+
+    /// Parameter id at each `write_order` index
+    pub fn tp_supported_ids() -> Vec<u64> {
+        TransportParameterId::SUPPORTED.iter().map(|&i| i as u64).collect()
+    }
+
+    fn v(x: u64) -> VarInt {
+        VarInt::from_u64(x).expect("verif: value must be < 2^62")
+    }
+
+    fn pa_make(p: &VPreferredAddress) -> PreferredAddress {
+        PreferredAddress {
+            address_v4: p.address_v4,
+            address_v6: p.address_v6,
+            connection_id: ConnectionId::new(&p.connection_id),
+            stateless_reset_token: p.stateless_reset_token.into(),
+        }
+    }
+
+    fn pa_mirror(p: &PreferredAddress) -> VPreferredAddress {
+        let mut t = [0; 16];
+        t.copy_from_slice(&p.stateless_reset_token);
+        VPreferredAddress {
+            address_v4: p.address_v4,
+            address_v6: p.address_v6,
+            connection_id: p.connection_id.to_vec(),
+            stateless_reset_token: t,
+        }
+    }
+
+    pub fn tp_make(p: &VTransportParams) -> TransportParameters {
+        TransportParameters {
+            max_idle_timeout: v(p.max_idle_timeout),
+            max_udp_payload_size: v(p.max_udp_payload_size),
+            initial_max_data: v(p.initial_max_data),
+            initial_max_stream_data_bidi_local: v(p.initial_max_stream_data_bidi_local),
+            initial_max_stream_data_bidi_remote: v(p.initial_max_stream_data_bidi_remote),
+            initial_max_stream_data_uni: v(p.initial_max_stream_data_uni),
+            initial_max_streams_bidi: v(p.initial_max_streams_bidi),
+            initial_max_streams_uni: v(p.initial_max_streams_uni),
+            ack_delay_exponent: v(p.ack_delay_exponent),
+            max_ack_delay: v(p.max_ack_delay),
+            active_connection_id_limit: v(p.active_connection_id_limit),
+            disable_active_migration: p.disable_active_migration,
+            max_datagram_frame_size: p.max_datagram_frame_size.map(v),
+            initial_src_cid: p.initial_src_cid.as_deref().map(ConnectionId::new),
+            grease_quic_bit: p.grease_quic_bit,
+            min_ack_delay: p.min_ack_delay.map(v),
+            original_dst_cid: p.original_dst_cid.as_deref().map(ConnectionId::new),
+            retry_src_cid: p.retry_src_cid.as_deref().map(ConnectionId::new),
+            stateless_reset_token: p.stateless_reset_token.map(Into::into),
+            preferred_address: p.preferred_address.as_ref().map(pa_make),
+            grease_transport_parameter: p.grease.as_ref().map(|(id, payload)| {
+                let mut buf = [0u8; ReservedTransportParameter::MAX_PAYLOAD_LEN];
+                buf[..payload.len()].copy_from_slice(payload);
+                ReservedTransportParameter { id: v(*id), payload: buf, payload_len: payload.len() }
+            }),
+            write_order: p.write_order.as_ref().map(|o| {
+                let mut a = [0u8; TransportParameterId::SUPPORTED.len()];
+                a.copy_from_slice(o);
+                a
+            }),
+        }
+    }
+
+    pub fn tp_mirror(p: &TransportParameters) -> VTransportParams {
+        VTransportParams {
+            max_idle_timeout: p.max_idle_timeout.0,
+            max_udp_payload_size: p.max_udp_payload_size.0,
+            initial_max_data: p.initial_max_data.0,
+            initial_max_stream_data_bidi_local: p.initial_max_stream_data_bidi_local.0,
+            initial_max_stream_data_bidi_remote: p.initial_max_stream_data_bidi_remote.0,
+            initial_max_stream_data_uni: p.initial_max_stream_data_uni.0,
+            initial_max_streams_bidi: p.initial_max_streams_bidi.0,
+            initial_max_streams_uni: p.initial_max_streams_uni.0,
+            ack_delay_exponent: p.ack_delay_exponent.0,
+            max_ack_delay: p.max_ack_delay.0,
+            active_connection_id_limit: p.active_connection_id_limit.0,
+            disable_active_migration: p.disable_active_migration,
+            max_datagram_frame_size: p.max_datagram_frame_size.map(|x| x.0),
+            initial_src_cid: p.initial_src_cid.map(|c| c.to_vec()),
+            grease_quic_bit: p.grease_quic_bit,
+            min_ack_delay: p.min_ack_delay.map(|x| x.0),
+            original_dst_cid: p.original_dst_cid.map(|c| c.to_vec()),
+            retry_src_cid: p.retry_src_cid.map(|c| c.to_vec()),
+            stateless_reset_token: p.stateless_reset_token.map(|t| {
+                let mut a = [0; 16];
+                a.copy_from_slice(&t);
+                a
+            }),
+            preferred_address: p.preferred_address.as_ref().map(pa_mirror),
+            grease: p
+                .grease_transport_parameter
+                .map(|g| (g.id.0, g.payload[..g.payload_len].to_vec())),
+            write_order: p.write_order.map(|o| o.to_vec()),
+        }
+    }
+
+    /// The protocol defaults (`TransportParameters::default()`)
+    pub fn tp_default() -> VTransportParams {
+        tp_mirror(&TransportParameters::default())
+    }
+
+    /// `PreferredAddress::write`, plus the size `wire_size` announces for it
+    pub fn preferred_address_write(p: &VPreferredAddress, out: &mut Vec<u8>) -> u16 {
+        let p = pa_make(p);
+        p.write(out);
+        p.wire_size()
+    }
+
+    /// `PreferredAddress::read`: (value, bytes consumed)
+    pub fn preferred_address_read(bytes: &[u8]) -> Result<(VPreferredAddress, usize), Error> {
+        let mut r = bytes;
+        let p = PreferredAddress::read(&mut r)?;
+        Ok((pa_mirror(&p), bytes.len() - r.len()))
+    }
+}
